@@ -21,7 +21,7 @@ def _cases(draw, max_size=9):
     extra = draw(st.lists(st.floats(min_value=0.0, max_value=1.0), min_size=2, max_size=6))
     lims = sorted(draw(st.lists(st.floats(min_value=0.0, max_value=1.0), min_size=2, max_size=2)))
     return dict(s=s, k=k, m=m, repeated=draw(st.booleans()), gap=draw(st.sampled_from([1.0, 0.5, 10.0])),
-                extra=extra, lims=lims,
+                extra=extra, lims=lims, virtual_first=draw(st.booleans()),
                 thr_extra=draw(st.lists(st.floats(min_value=0.0, max_value=1.0), max_size=3)))
 
 
@@ -54,6 +54,7 @@ def check(case):
         cand.add(a / 2 + b / 2)
     thr = np.asarray(sorted(cand), dtype=float)
     targets = np.asarray(sorted(set([j / T for j in range(T + 1)] + list(case["extra"]))), dtype=float)
+    targets0 = targets.copy()
     l_, u_ = case["lims"]
     eligible_total = 0
     for sc, ec in CONFIGS:
@@ -78,8 +79,16 @@ def check(case):
         for mt in METRICS:
             rel = relevant_scores(mt, pos, neg)
             rmin, rmax = min(rel), max(rel)
-            tm = np.asarray(getattr(M, "threshold_at_" + mt)(targets), dtype=float)
-            tv = np.asarray(getattr(V, "threshold_at_" + mt)(targets), dtype=float)
+            # one target array object is shared by all calls; which object is asked first alternates
+            if case.get("virtual_first", False):
+                tv = np.asarray(getattr(V, "threshold_at_" + mt)(targets), dtype=float)
+                tm = np.asarray(getattr(M, "threshold_at_" + mt)(targets), dtype=float)
+            else:
+                tm = np.asarray(getattr(M, "threshold_at_" + mt)(targets), dtype=float)
+                tv = np.asarray(getattr(V, "threshold_at_" + mt)(targets), dtype=float)
+            require(np.array_equal(targets, targets0), "easy:threshold",
+                    f"{ctx}: threshold_at_{mt} changed the caller's target array, so the two objects were "
+                    f"asked different questions")
             ok = (tm >= rmin) & (tm <= rmax)
             eligible_total += int(ok.sum())
             if ok.any():
